@@ -194,6 +194,11 @@ theorem split_same_steps (step : StepFn K) (hfix : IsFixed step) (env : Nat → 
       congr 2
       omega
 
+/-- in exact arithmetic there is no NaN: the argument check never fires -/
+theorem integrateN_eq (guard : Bool) (step : StepFn K) (env : Nat → Flags) (fuel : Nat) (s : Sim K) (tmax : K)
+    (inf : Bool) : integrateN guard step env fuel s tmax inf = integrate step env fuel s tmax inf := by
+  unfold integrateN; simp
+
 /-- a concrete simulation on ℚ used by the kernel-evaluated instances in RV/Props/C08.lean:
     `t = 0`, `dt = 10`, RUNNING, exact_finish_time = 0, empty history -/
 def demoSim : Sim ℚ :=
